@@ -263,7 +263,8 @@ MUTANTS = [
  dict(id="C13", name="root_self_enabler_ignored", edits=[(SF, "    self_edge(ports, \"/\");\n", "")]),
  dict(id="C20", name="snapshot_pops_the_oldest_pending", edits=[(MM, "            for(int i=0; i<nstorage->mapping.size(); ++i)\n                midi.pending.remove(std::get<0>(nstorage->mapping[i]));", "            midi.pending.pop();")]),
  dict(id="C20", name="clear_keeps_the_watches", edits=[(MM, "    for(size_t i=0; i<learnQueue.size(); ++i) {\n        rtosc_message(buf, 1024, \"/midi-learn/midi-remove-watch\",\"\");\n        rt_cb(buf);\n    }", "")], expect=0),   # benign since e3b2e79: a report nobody waits for is answered with midi-unuse-CC, the stale watch only costs one wasted report
- dict(id="C20", name="report_without_request_stays_pending", edits=[(MM, "        rtosc_message(buf, 64, \"/midi-learn/midi-unuse-CC\", \"i\", ID);\n        rt_cb(buf);\n", "")]),
+ dict(id="C20", name="report_without_request_stays_pending", edits=[(MM, "        rtosc_message(buf, 64, \"/midi-learn/midi-remove-watch\", \"i\", ID);\n        rt_cb(buf);\n", "")]),
+ dict(id="C20", name="port_constructor_ignores_the_id", edits=[(MM, "    return Port{\"midi-remove-watch\",\"\",0, [this](msg_t msg, RtData&) {\n        this->remWatch(msg);", "    return Port{\"midi-remove-watch\",\"\",0, [this](msg_t msg, RtData&) {\n        (void)msg; this->remWatch();")]),
  dict(id="C20", name="late_report_binds_again", edits=[(MM, "            if(std::get<0>(storage->mapping[i]) == ID) {", "            if(false && std::get<0>(storage->mapping[i]) == ID) {")], expect=0),
  dict(id="C12", name="char_zero_printed_raw", edits=[("src/cpp/pretty-format.c", "            else if(chr && c == '\\0')\n                return '0'; // (a raw NUL would end the text)\n", "")]),
  dict(id="C12", name="char_zero_escape_not_accepted", edits=[("src/cpp/pretty-format.c", "                    esc = (src[1] == '0') ? 1 : get_escaped_char(src[1], 1);", "                    esc = get_escaped_char(src[1], 1);")]),
